@@ -147,7 +147,7 @@ type env struct {
 
 func newEnv(sp *caseSpec) *env {
 	e := &env{sp: sp, limit: 1 << 30}
-	e.cb = vrt.NewBudget(2_000_000, "callbacks of lazy stages called more than 2e6 times on an input of at most 64 elements")
+	e.cb = vrt.NewBudget(2_000_000, "callbacks of lazy stages called more than 2e6 times on an input of at most 400 elements")
 	e.hb = vrt.NewBudget(int64(200_000+4000*(len(sp.Vals)+sp.K+10)), "HasNext of the finite source called without bound")
 	return e
 }
